@@ -153,6 +153,19 @@ def check(ck):
     if len(cb_calls) != 1:
         raise AnalysisError("anchor vanished: the callback invocation in FutureResult.__notify (found %d)" % len(cb_calls))
     cn, cc = cb_calls[0]
+    # "something is registered" is an identity test with None: a truth test skips a registered callable whose truth value is false
+    # (a callable object defining __len__ / __bool__), consuming the registration without invoking it
+    dn_ = dominators(gn)
+    for d_ in dn_[cn.id]:
+        b_ = gn.nodes[d_]
+        if b_.kind != "branch":
+            continue
+        tb_ = prov.origin(gn, b_, b_.test) if isinstance(b_.test, ast.Name) else None
+        if tb_ is not None and prov.contains(tb_, lambda x: x == ("attr", ("param", "self"), "__callback")):
+            ck.bad("C16.3", "%s: registration test `%s`" % (q.fn(fn_), dump(b_.test)),
+                   "the callback is invoked under the truth test `%s` of the registered callable: a registered callable that is false "
+                   "(an object with __len__ / __bool__) is never invoked although its registration is consumed; the test must be "
+                   "`is not None`" % dump(b_.test), q.loc(fn_, b_))
     tries = [t for t in ast.walk(fn_.node) if isinstance(t, ast.Try) and q.try_body_contains(t, cn.ast)]
     okk = bool(tries) and any(h.type is not None and dump(h.type) in ("Exception", "BaseException") or h.type is None for h in tries[0].handlers)
     ck.require(okk, "C16.3", "%s: callback inside try/except Exception" % q.fn(fn_), "contained", "the callback is invoked outside a catch-all try", q.loc(fn_, cn))
